@@ -17,6 +17,7 @@ clause tokens (`:`-separated, `-` = absent; id = kind letter + number, e.g. `C3`
   cr:<A|E|X>:<h>:<pay>:<ref,ref,…|->:<bad>       CREATE ASSERTION / EVIDENCE / ACTIVITY
   ud:<ref>:<val>:<expect|->:<bad>                UPDATE
   ss:<ref>:<r|t>:<a|r|t|->                       ARCHIVE (r) / TOMBSTONE (t) [EXPECT STATE]
+  pg:<ref>:<bad>                                 PURGE … CONFIRM "PURGE"  (bad: refused while staged — still referenced)
   rt:<ref>:<0|1|->                               RETRACT ASSERTION [EXPECT STATE active (0) / retracted (1)]
 -/
 open AndaVerif.Tx AndaVerif.Drv
@@ -51,7 +52,8 @@ def parseBool (s : String) : Option Bool :=
 
 def parseSt (s : String) : Option St :=
   match s with
-  | "a" => some .active | "r" => some .archived | "t" => some .tombstoned | "p" => some .pending | _ => none
+  | "a" => some .active | "r" => some .archived | "t" => some .tombstoned | "p" => some .pending
+  | "x" => some .purged | _ => none
 
 def parseRefs (s : String) : Option (List Ref) :=
   if s = "-" ∨ s = "" then some [] else (s.splitOn ",").mapM parseRef
@@ -69,6 +71,8 @@ def parseClause (tok : String) : Option Clause :=
       pure (.createRec (← kindOfChar kc) (← h.toNat?) (← pay.toNat?) (← parseRefs refs) (← parseBool bad))
   | ["ud", t, val, ex, bad] => do
       pure (.update (← parseRef t) (← val.toNat?) (← parseOptNat ex) (← parseBool bad))
+  | ["pg", t, bad] => do
+      pure (.purge (← parseRef t) (← parseBool bad))
   | ["rt", t, ex] => do
       pure (.retract (← parseRef t) (← parseOptNat ex))
   | ["ss", t, to, ex] => do
@@ -80,9 +84,10 @@ def showId (i : Id) : String := kindChar i.kind ++ toString i.n
 
 def showSt : St → String
   | .pending => "pending" | .active => "active" | .archived => "archived" | .tombstoned => "tombstoned"
+  | .purged => "purged"
 
 def showOp : Op → String
-  | .create => "create" | .update => "update" | .archive => "archive" | .tombstone => "tombstone" | .retract => "retract"
+  | .create => "create" | .update => "update" | .archive => "archive" | .tombstone => "tombstone" | .retract => "retract" | .purge => "purge"
 
 def showErr : Err → String
   | .dupHandle => "invalid" | .invalid => "invalid" | .unknownHandle => "invalid" | .notFound => "notfound"
